@@ -1314,8 +1314,13 @@ class Bpsec(AbstractApplication):
         # Report status reason
         failure = []
 
-        confidential_blocks = list(ctr.block_type(BlockConfidentialityBlock))
+        bcb_type = BlockConfidentialityBlock._overload_fields[CanonicalBlock]['type_code']
+        confidential_blocks = list(ctr.block_type(bcb_type))
         for bcb in confidential_blocks:
+            if not isinstance(bcb.payload, BlockConfidentialityBlock):
+                LOGGER.warning('BCB in block num %s cannot be decoded', bcb.block_num)
+                failure.append(StatusReport.ReasonCode.FAILED_SEC)
+                continue
             LOGGER.debug('Verifying BCB in %d with context %s, targets %s',
                          bcb.block_num, bcb.payload.context_id, bcb.payload.targets)
 
@@ -1349,8 +1354,13 @@ class Bpsec(AbstractApplication):
         # Report status reason
         failure = []
 
-        integ_blocks = list(ctr.block_type(BlockIntegrityBlock))
+        bib_type = BlockIntegrityBlock._overload_fields[CanonicalBlock]['type_code']
+        integ_blocks = list(ctr.block_type(bib_type))
         for bib in integ_blocks:
+            if not isinstance(bib.payload, BlockIntegrityBlock):
+                LOGGER.warning('BIB in block num %s cannot be decoded', bib.block_num)
+                failure.append(StatusReport.ReasonCode.FAILED_SEC)
+                continue
             LOGGER.debug('Verifying BIB in %d with context %s, targets %s',
                          bib.block_num, bib.payload.context_id, bib.payload.targets)
 
